@@ -671,7 +671,19 @@ func (c *xClient) Call(ctx context.Context, serviceMethod string, args interface
 			if uncoverError(err2) {
 				c.removeClient(k, c.servicePath, serviceMethod, client)
 			}
-			err = err1
+			if err1 != nil { // neither request could be sent
+				return err1
+			}
+			// only the first request is in flight: its answer decides
+			select {
+			case <-ctx.Done(): // cancel by context
+				err = ctx.Err()
+			case call := <-call1:
+				err = call.Error
+				if err == nil && reply != nil && reply1 != nil {
+					reflect.ValueOf(reply).Elem().Set(reflect.ValueOf(reply1).Elem())
+				}
+			}
 			return err
 		}
 
